@@ -7,7 +7,7 @@ module is the oracle, which is independent of the model.
 """
 import random
 
-from harness import common
+from harness import common, histlib
 from harness.common import Case, req, enc_list, ok, OPCODE, fmt_clauses
 
 from cnfgen.formula.cnf import CNF
@@ -123,4 +123,40 @@ def cases(ctx):
         lits = [rng.choice([1, -1]) * v for v in rng.sample(range(1, 6), rng.randint(1, 3))]
         out.append(build("observe_history", dict(opb=opb, ops=ops, watch=watch,
                                                   last=[lits, rng.choice(["<=", ">=", "=="]), rng.randint(0, 2)])))
+    return out + rendered_histories(rng, tier)
+
+
+# ---- the writer suites of C12 (request = the Lean model's text of the CURRENT content, oracle = the independent readers)
+#      on ONE formula object rendered after every step of its growth (harness/histlib.py; built by C12.build: src = "hist")
+JUDGED = [("wopb", dict(export_header=False, export_varnames=False, via="to_opb"), {"obs": "to_opb"}),
+          ("wopb", dict(export_header=True, export_varnames=False), {"obs": "to_file", "fmt": "opb", "header": True, "names": False}),
+          ("wopb", dict(export_header=True, export_varnames=True), {"obs": "to_file", "fmt": "opb", "header": True, "names": True}),
+          ("wopb", dict(export_header=False, export_varnames=True), {"obs": "to_file", "fmt": "opb", "header": False, "names": True}),
+          ("wlatex", dict(), {"obs": "to_latex"}),
+          ("wlatexdoc", dict(export_header=True), {"obs": "to_file", "fmt": "latex", "header": True}),
+          ("wlatexdoc", dict(export_header=False), {"obs": "to_file", "fmt": "latex", "header": False})]
+
+
+def rendered_histories(rng, tier):
+    from harness.props import C12
+    quick = tier == "quick"
+    infos = []
+    # corpus: finding D46-s6 (a header without 'description': the LaTeX document writer raises KeyError)
+    for first in ([{"op": "clause", "lits": [1, -2], "check": True}], [{"op": "init", "clauses": [[1, -2]], "kind": "list", "description": "d"}]):
+        infos.append(("wlatexdoc", dict(export_header=True, src="hist", steps=first + [{"op": "header", "key": "description", "value": None}])))
+    for suite, fields, ob in JUDGED:
+        hs = histlib.minimal_histories([ob])
+        for h in (hs if not quick or suite != "wlatexdoc" else rng.sample(hs, 6)):
+            infos.append((suite, dict(fields, src="hist", steps=h)))
+    for _ in range(25 if quick else 1000):
+        suite, fields, ob = rng.choice(JUDGED)
+        steps, cuts = histlib.gen_history(rng, rng.randint(2, 7), rng.choice([8, 20, 40]), favourite=ob, become=.08)
+        for cut in cuts:
+            s2, f2, _ = (suite, fields, ob) if rng.random() < .7 else rng.choice(JUDGED)
+            infos.append((s2, dict(f2, src="hist", steps=steps[:cut], u=rng.random() < .15)))
+    out = []
+    for suite, info in infos:
+        c = C12.build(suite, info)
+        if c is not None:
+            out.append(c)
     return out
